@@ -23,7 +23,6 @@ import (
 	"io"
 	"os"
 	"path/filepath"
-	"sort"
 	"strings"
 	"sync"
 	"time"
@@ -311,7 +310,7 @@ func c04ErrClass(err error) string {
 
 func c04Scan(c *Ctx) error {
 	r := c.Rng.Fork()
-	n := c04N(c, 300, 3000, 1500)
+	n := c04N(c, 240, 3000, 1500)
 	for i := 0; i < n; i++ {
 		cr := r.Fork()
 		sb := cr.Range(1, 6)
@@ -395,7 +394,7 @@ func c04Scan(c *Ctx) error {
 
 func c04Csig(c *Ctx) error {
 	r := c.Rng.Fork()
-	n := c04N(c, 160, 1600, 800)
+	n := c04N(c, 120, 1600, 800)
 	for i := 0; i < n; i++ {
 		cr := r.Fork()
 		var bs, total int
@@ -496,7 +495,7 @@ const c04FanSlice = 16384
 
 func c04Fan(c *Ctx) error {
 	r := c.Rng.Fork()
-	n := c04N(c, 60, 600, 200)
+	n := c04N(c, 40, 600, 200)
 	for i := 0; i < n; i++ {
 		cr := r.Fork()
 		total := []int{0, 1, c04FanSlice - 1, c04FanSlice, c04FanSlice + 1, 3 * c04FanSlice, 65536, 65537, 100000}[cr.Intn(9)]
@@ -671,11 +670,11 @@ func c04GenBuild(r *lib.Rng, i int, thorough bool, off int) (*lib.Build, string,
 	put := func(p string, d []byte) { b.Put(lib.Entry{Path: p, Kind: "file", Data: d}) }
 	switch i % 10 {
 	case 0, 1: // size sweep: one to four files with sizes on and around the block and pipe-slice multiples
-		// three consecutive sizes of the sweep list per build: a quick run (12 sweep builds) goes
-		// through the whole list, whatever the seed
+		// four consecutive sizes of the sweep list per build: a quick run (10 sweep builds, two of
+		// them replaced by corpus builds) goes through the whole list, whatever the seed
 		sweepIdx := (i/10)*2 + i%10
-		for k := 0; k < 3; k++ {
-			s := c04SweepSizes[(3*sweepIdx+k+off)%len(c04SweepSizes)]
+		for k := 0; k < 4; k++ {
+			s := c04SweepSizes[(4*sweepIdx+k+off)%len(c04SweepSizes)]
 			put(fmt.Sprintf("%sf%d.bin", []string{"", "d/", "d/e/"}[r.Intn(3)], k), c04Content(r, s, true))
 		}
 		return b, "build/sweep", true
@@ -960,7 +959,7 @@ func c04Groups(si *pwr.SignatureInfo, want []c04Hash) (string, string, bool) {
 
 func c04Builds(c *Ctx) error {
 	r := c.Rng.Fork()
-	n := c04N(c, 60, 600, 150)
+	n := c04N(c, 50, 500, 150)
 	thorough := c.Tier == "thorough"
 	for i := 0; i < n; i++ {
 		cr := r.Fork()
@@ -1215,5 +1214,3 @@ func c04Builds(c *Ctx) error {
 	}
 	return nil
 }
-
-var _ = sort.Ints
